@@ -254,3 +254,17 @@ def nego_many(k, ans_where, pref_where, lim=410):
         return "v-not-listed"
 
     return nego(sup, (at(pref_where) if pref_where >= 0 else None), A_OK, at(ans_where), 0, False, [1], 100)
+
+
+def nego_affix(c, where, sidx):
+    """the server answers an OFFERED version with a symbolic affix: (0) appended, (1) prepended, (2) inserted after
+    the year; whatever the characters are, a non-empty affix makes an answer that was not offered"""
+    a, b = REAL[0], REAL[1]
+    base = b if sidx else a
+    if where == 0:
+        ans = base + c
+    elif where == 1:
+        ans = c + base
+    else:
+        ans = base[:4] + c + base[4:]
+    return nego([a, b], None, A_OK, ans, 0, False, [1], 100)
